@@ -319,6 +319,9 @@ func c17Global(c *core.Ctx, vs []version) {
 	if p := core.Try(func() { errors.RegisterTypeMigration(mig.Pkg, "mig.LX", lb) }); p == nil {
 		c.Violate("double-registration", "registering the same target type twice is not rejected", "")
 	}
+	if p := core.Try(func() { errors.RegisterTypeMigration(mig.Pkg, "mig.LA", lb) }); p == nil {
+		c.Violate("double-registration/identical", "registering the same target type twice (with the identical previous name) is not rejected", "")
+	}
 	restore()
 	c.Nontrivial("double-registration")
 	// a move that changes ONLY the import path (package name and type name stay): old code has
